@@ -36,6 +36,8 @@ type Disk struct {
 	events []Event
 	// optional raw-read observer (under mu)
 	OnRead func(a uint64, data []byte)
+	// Yield, when set, is called after a read or write has completed (no lock held)
+	Yield  func(kind string, a uint64)
 	Reads  uint64
 	Writes uint64
 	Barrs  uint64
@@ -52,6 +54,9 @@ func (d *Disk) Read(a uint64) []byte {
 }
 
 func (d *Disk) ReadTo(a uint64, b []byte) {
+	if y := d.Yield; y != nil {
+		defer y("read", a) // after the lock is released: a scheduling point for the drivers of servers without hooks
+	}
 	d.mu.Lock()
 	defer d.mu.Unlock()
 	if a >= d.sz {
@@ -69,6 +74,9 @@ func (d *Disk) ReadTo(a uint64, b []byte) {
 }
 
 func (d *Disk) Write(a uint64, v []byte) {
+	if y := d.Yield; y != nil {
+		defer y("write", a)
+	}
 	if len(v) != BlockSize {
 		panic(fmt.Errorf("v is not block-sized (%d bytes)", len(v)))
 	}
